@@ -114,7 +114,13 @@ int main(void)
             free(d); free(nd); free(rp); }
         else if (!strcmp(t[0], "btrim") && n == 4) { a = vp_hex(t[1], &al); char* set = cset(t[3]); uint8_t* d = mkbuf(al, a, al);
             int flags = (strchr(t[2], 'l') ? GP_LEFT : 0) | (strchr(t[2], 'r') ? GP_RIGHT : 0);
-            size_t l = gp_bytes_trim(d, al, NULL, set, flags); showbuf(d, l); free(d); free(set); }
+            size_t l = gp_bytes_trim(d, al, NULL, set, flags);
+            /* the same trim through the out-pointer form (nothing is moved, the start is reported) */
+            uint8_t* d2 = mkbuf(al, a, al); void* start = d2;
+            size_t l2 = gp_bytes_trim(d2, al, &start, set, flags);
+            if (l2 != l || (l && memcmp(start, d, l) != 0) || (uint8_t*)start < d2 || (uint8_t*)start + l2 > d2 + al) {
+                fputs("outptr-variant:", stdout); printf("%zu@%td ", l2, (uint8_t*)start - d2); }
+            showbuf(d, l); free(d); free(d2); free(set); }
         else if (!strcmp(t[0], "delete") && n == 1 && s) {
             if (neighbour) for (int i = 0; i < 16; i++) if (neighbour[i] != 0xA5) { fputs("NEIGHBOUR-CLOBBERED ", stdout); break; }
             gp_str_delete(s); s = NULL;
